@@ -90,6 +90,12 @@ def integer_getter(prog, ctx, g, f, width, signed):
         ctx.fail("R4", "%s: base argument" % g, call.where,
                  "base is %s, not 0: octal/hexadecimal literals are misread or refused" % (base if base is not None else render(args[2])),
                  key="base:%s" % g)
+    ok_e, why_e = conv.errno_reset_before(f, call)
+    if ok_e:
+        ctx.ok("R4", "%s: errno cleared before the conversion" % g, call.where, why_e)
+    else:
+        ctx.fail("R4", "%s: errno cleared before the conversion" % g, call.where, why_e + ": valid text is refused (or invalid accepted) depending on earlier calls",
+                 key="errno-reset:%s" % g)
     endp = None
     a1 = args[1].strip()
     if a1.k == "UnaryOperator" and a1.j.get("op") == "&":
@@ -241,12 +247,72 @@ def r5_bool(prog, ctx):
                         lowered.add(d["name"])
                 if pu is not None and pu.k == "BinaryOperator" and pu.j.get("op") == "=":
                     lowered.add(render(pu.children[0]))
+        # the compared text must be a complete copy: not a fixed-size array that cuts the stored text
+        from sa import buf as _buf
+        arrays, sites = _buf.analyse_fixed_arrays(prog, False)
+        for st in sites:
+            if st.fn is f and st.arr.name in compared and st.verdict in ("truncation", "overflow"):
+                ctx.fail("R5", "%s compares the whole text" % fname, st.node.where,
+                         "the text is compared after being copied into %s[%d]: %s - equality on the cut copy is a prefix match "
+                         "('falsehood' reads as 'false')" % (st.arr.name, st.arr.size, st.why), key="bool-truncated:%s" % fname)
         not_lowered = [x for x in compared if x not in lowered]
         if compared and not not_lowered:
             ctx.ok("R5", "%s is case-insensitive" % fname, f.where, "compared text %s is lower-cased first" % sorted(compared))
         elif not_lowered:
             ctx.fail("R5", "%s is case-insensitive" % fname, f.where, "%s is compared without lower-casing" % not_lowered,
                      key="bool-case:%s" % fname)
+
+
+def r7_def_wrappers(prog, ctx):
+    """the ...ValueDef wrappers hand the getter's verdict through: every return returns the variable that received the
+    getter's result, unmodified, and the default is stored only for ECONF_NOKEY"""
+    from sa.dataflow import ReachingDefs
+    n = 0
+    for name in prog.entry_points():
+        if not (name.startswith("econf_get") and name.endswith("ValueDef")):
+            continue
+        f = prog.fn(name)
+        ctx.touch(f)
+        base = name[:-3]
+        calls = f.calls(base)
+        if len(calls) != 1:
+            ctx.inconclusive("R7", "%s delegates to %s" % (name, base), f.where, "%d calls" % len(calls))
+            continue
+        n += 1
+        c = calls[0]
+        up = c.up()
+        var = None
+        if up is not None and up.k == "DeclStmt":
+            var = up.j["decls"][0]["name"]
+        elif up is not None and up.k == "BinaryOperator" and up.j.get("op") == "=":
+            var = render(up.children[0])
+        elif up is not None and up.k == "ReturnStmt":
+            ctx.ok("R7", "%s returns the getter's verdict" % name, c.where, "returned directly")
+            continue
+        if var is None:
+            ctx.inconclusive("R7", "%s returns the getter's verdict" % name, c.where, "result not bound to a variable")
+            continue
+        rd = ReachingDefs(f)
+        bad = None
+        cfg = f.cfg
+        cb = cfg.block_of(c)
+        for r in f.returns():
+            if cb not in cfg.reachable(cfg.block_of(r), forward=False):
+                continue
+            if not r.children or render(r.children[0]) != var:
+                bad = (r, "returns %s instead of the getter's result" % (render(r.children[0]) if r.children else "nothing"))
+                break
+            defs = rd.reaching(var, r)
+            if any(d.node is not up and not (d.rhs is not None and d.rhs.strip() is c) for d in defs):
+                bad = (r, "`%s` is overwritten after the getter returned" % var)
+                break
+        if bad:
+            ctx.fail("R7", "%s returns the getter's verdict" % name, bad[0].where,
+                     "%s: an error of the typed getter (bare key, conversion error) is masked and a default/invented value returned with success" % bad[1],
+                     key="def-masks:%s" % name)
+        else:
+            ctx.ok("R7", "%s returns the getter's verdict" % name, c.where, "every return hands back `%s` as assigned from %s()" % (var, base))
+    ctx.floor("C09 defaulted getters", n, 8)
 
 
 def _get_label(n):
@@ -287,6 +353,12 @@ def run(prog, ctx):
             else:
                 ctx.fail("R6", "%s parses with %s" % (g, want), call.where,
                          "uses %s: the text is rounded twice / to the wrong precision" % call.j["callee"], key="routine:%s" % g)
+            if conv.uses_errno(f):
+                ok_e, why_e = conv.errno_reset_before(f, call)
+                if ok_e:
+                    ctx.ok("R4", "%s: errno cleared before the conversion" % g, call.where, why_e)
+                else:
+                    ctx.fail("R4", "%s: errno cleared before the conversion" % g, call.where, why_e, key="errno-reset:%s" % g)
             succ = conv.success_returns(f)
             args = call.call_args()
             a1 = args[1].strip()
@@ -307,4 +379,5 @@ def run(prog, ctx):
         tgt = "get" + p[len("econf_get"):] + "Num"
         if not f.calls(tgt):
             ctx.inconclusive("R0", "%s delegates to %s" % (p, tgt), f.where, "delegation not found")
+    r7_def_wrappers(prog, ctx)
     ctx.floor("C09 typed getters", n, 8)
